@@ -199,6 +199,8 @@ def gen_scenario(rng: random.Random, prog, *, crash=0.5, faults=0.0, paging=0.5,
             sc["faults_after_apply"] = list(sc["faults"])       # the call is applied, only its answer is lost
     if rng.random() < paging:
         sc["paging"] = "random"
+        if rng.random() < 0.15:
+            sc["get_state_fault"] = rng.randrange(1, 5)     # one page fetch (of the initial history or of an answer) fails
     if rng.random() < paging * 0.6:
         sc["resp_page"] = rng.choice([0, 1, 1, 2])      # checkpoint RESPONSES are paginated too (inline page + NextMarker)
     if rng.random() < pct:
